@@ -79,7 +79,7 @@ def r1_optimizer_state(ck: Check, repo: Repo, clone: Fn) -> None:
         if n is None or lev.own(c.args[0], n).level != FRESH:
             sink_fresh = False
     sites = [c for c in calls_in(clone.node) if last_attr(c) == "load_state_dict" and isinstance(c.func, ast.Attribute)]
-    ck.floor("C01.1", len(sites), 1, "load_state_dict call(s) in EvolvableAlgorithm.clone")
+    ck.floor("C01.1", len(sites), 1, "load_state_dict call(s) in EvolvableAlgorithm.clone", fn=clone)
     for c in sites:
         n = cfg.node_of(c)
         arg = c.args[0] if c.args else get_kw(c, "state_dict")
@@ -108,7 +108,7 @@ def r2_networks_owned(ck: Check, repo: Repo, clone: Fn, mclone: Fn) -> None:
     ev = OwnEval(cfg, alias_roots={"self"})
     sets = [c for c in calls_in(clone.node) if call_name(c) == "setattr" and len(c.args) == 3
             and isinstance(c.args[0], ast.Name) and c.args[0].id == "clone"]
-    ck.floor("C01.2", len(sets), 2, "setattr(clone, ...) in clone()")
+    ck.floor("C01.2", len(sets), 2, "setattr(clone, ...) in clone()", fn=clone)
     for c in sets:
         n = cfg.node_of(c)
         o = ev.own(c.args[2], n)
@@ -124,7 +124,7 @@ def r2_networks_owned(ck: Check, repo: Repo, clone: Fn, mclone: Fn) -> None:
     mev = OwnEval(mcfg, alias_roots={"self"})
     ctor_calls = [c for c in calls_in(mclone.node) if dotted(c.func) in ("self.__class__", "type(self)") or
                   (isinstance(c.func, ast.Call) and call_name(c.func) == "type")]
-    ck.floor("C01.2", len(ctor_calls), 1, "constructor call in EvolvableModule.clone")
+    ck.floor("C01.2", len(ctor_calls), 1, "constructor call in EvolvableModule.clone", fn=mclone)
     for c in ctor_calls:
         n = mcfg.node_of(c)
         ok = True
@@ -460,7 +460,7 @@ def r8_tournament(ck: Check, repo: Repo) -> None:
     cfg = CFG(sel.node)
     ev = OwnEval(cfg, alias_roots={"population"})
     apps = [c for c in calls_in(sel.node) if last_attr(c) in ("append", "insert", "extend") and call_name(c).startswith("new_population.")]
-    ck.floor("C01.8", len(apps), 2, "append sites building the new population")
+    ck.floor("C01.8", len(apps), 2, "append sites building the new population", fn=sel)
     for c in apps:
         n = cfg.node_of(c)
         o = ev.own(c.args[-1], n)
@@ -506,7 +506,7 @@ def r9_inspect_excludes(ck: Check, repo: Repo, inspect_attrs: Fn, clone: Fn) -> 
           "the exclusion list is seeded from agent.evolvable_attributes() (networks and optimizers)")
     # both dict comprehensions filter on `not in exclude`
     comps = [n for n in src_nodes if isinstance(n, ast.DictComp)]
-    ck.floor("C01.9", len(comps), 2, "attribute dict comprehensions in inspect_attributes")
+    ck.floor("C01.9", len(comps), 2, "attribute dict comprehensions in inspect_attributes", fn=inspect_attrs)
     for dc in comps:
         conds = [c for g in dc.generators for c in g.ifs]
         ok = any(isinstance(a, ast.Compare) and isinstance(a.ops[0], ast.NotIn) and dotted(a.comparators[0]) == "exclude"
@@ -515,7 +515,7 @@ def r9_inspect_excludes(ck: Check, repo: Repo, inspect_attrs: Fn, clone: Fn) -> 
     # clone(): optimizer networks come from cloned_modules, lr from the original wrapper
     cfg = CFG(clone.node)
     ows = [c for c in calls_in(clone.node) if call_name(c) == "OptimizerWrapper"]
-    ck.floor("C01.9", len(ows), 1, "OptimizerWrapper construction in clone()")
+    ck.floor("C01.9", len(ows), 1, "OptimizerWrapper construction in clone()", fn=clone)
     for c in ows:
         nets = get_kw(c, "networks", 1)
         n = cfg.node_of(c)
